@@ -156,6 +156,28 @@ func SplitConstAdd(v ssa.Value) (ssa.Value, int64) {
 	return v, 0
 }
 
+// SplitConstOffset is SplitConstAdd that also understands `x - n`.
+func SplitConstOffset(v ssa.Value) (ssa.Value, int64) {
+	v = unwrap(v)
+	if b, ok := v.(*ssa.BinOp); ok && b.Op == token.SUB {
+		if n, ok := ConstInt(b.Y); ok {
+			base, m := SplitConstOffset(b.X)
+			return base, m - n
+		}
+	}
+	if b, ok := v.(*ssa.BinOp); ok && b.Op == token.ADD {
+		if n, ok := ConstInt(b.Y); ok {
+			base, m := SplitConstOffset(b.X)
+			return base, n + m
+		}
+		if n, ok := ConstInt(b.X); ok {
+			base, m := SplitConstOffset(b.Y)
+			return base, n + m
+		}
+	}
+	return v, 0
+}
+
 // WalkExpr visits v and the values it is computed from (through arithmetic, conversions,
 // extractions, phis and call arguments), depth-bounded, calling f on each.
 func WalkExpr(v ssa.Value, f func(ssa.Value) bool) {
